@@ -5,6 +5,8 @@ import (
 	"go/token"
 	"go/types"
 	"math/big"
+	"path"
+	"path/filepath"
 	"strconv"
 	"strings"
 
@@ -547,6 +549,10 @@ func init() {
 		}
 	}
 	stubs["strings.TrimSpace"] = conc1(strings.TrimSpace)
+	stubs["path/filepath.Base"] = conc1(filepath.Base)
+	stubs["path/filepath.Clean"] = conc1(filepath.Clean)
+	stubs["path.Clean"] = conc1(path.Clean)
+	stubs["path.Base"] = conc1(path.Base)
 	stubs["strings.ToUpper"] = conc1(strings.ToUpper)
 	stubs["strings.ToLower"] = conc1(strings.ToLower)
 	stubs["strings.Fields"] = func(e *Exec, st *State, fn *ssa.Function, args []Val, where string) Val {
@@ -921,4 +927,14 @@ func (e *Exec) BoolNilPerCall(prefix string) Val {
 	e.stubCalls[prefix]++
 	b := e.Input(fmt.Sprintf("%s_%d", prefix, e.stubCalls[prefix]), "bool", types.Typ[types.Bool])
 	return TupleV{b, &IfaceV{}}
+}
+
+// BytesByArg: ([]byte{symbol named after the concrete string argument}, nil).
+func (e *Exec) BytesByArg(st *State, prefix string, arg Val) Val {
+	name, ok := e.concStr(arg)
+	if !ok {
+		panic(&UnsupportedErr{Msg: "bytes-by-arg stub needs a concrete text argument"})
+	}
+	b := e.Input(prefix+"_"+name, "byte", types.Typ[types.Uint8])
+	return TupleV{e.mkSlice(st, types.Typ[types.Uint8], []Val{b}), &IfaceV{}}
 }
